@@ -1,10 +1,13 @@
 import Cello.File
+import Cello.FileText
 import CelloGen.File
 import Driver.Common
 /- driver for engine `file` (C20): interprets the same op files as harness/h_file.c on the model
    (`Cello.File.step` over the reference stdio `refIO`, with the File_Close facts read from the source by the
    translator) and prints the same `O` lines.  Process objects (ops `p…`): the same `step` over the reference pipe
-   library `pipeIO`, with the Process_Close facts read from the source (`pcfg`); `drop` (the collector closes) = `MOp.del`. -/
+   library `pipeIO`, with the Process_Close facts read from the source (`pcfg`); `drop` (the collector closes) = `MOp.del`.
+   Typed text (ops `tp` / `ts`): `Cello.FileText` — the texts print_to hands to vfprintf per specification, and scan_from_with's
+   branches evaluated from what the translator read from src/Show.c (CelloGen.FileScan), over the same reference stdio. -/
 open Cello.File
 
 namespace Driver.FileDrv
@@ -192,6 +195,94 @@ def noExtra (_ : R PRef Val) : String := ""
 
 def parsePMode (t : String) : Option Mode :=
   if t = "r" then some .r else if t = "w" then some .w else if t = "r+" then some .rp else if t = "x" then some .bad else none
+
+/-! typed text: `tp <o> <spec> <value> <sep>` = print_to(f, 0, "%<spec><sep>", x), `ts <o> <spec> <sep>` = scan_from(f, 0, "%<spec><sep>", x) -/
+
+def maxStrVal : Nat := 64
+
+def parseSep (t : String) : Option (List Nat) :=
+  match parseHex t with
+  | some bs =>
+    let ns := Cello.FileText.toNats bs
+    if ns.length > 8 || ns.any (fun b => b = 37 || b = 0) then none else some ns
+  | none => none
+
+def parseHex64 (t : String) : Option Nat :=
+  match t.toList with
+  | 'x' :: r =>
+    if r.length ≠ 16 then none
+    else r.foldl (fun acc c => match acc, hexVal c with | some a, some d => some (a * 16 + d) | _, _ => none) (some 0)
+  | _ => none
+
+def parseTVal (sp : Cello.FileText.Spec) (t : String) : Option Cello.FileText.TVal :=
+  match Cello.FileText.dfltOf sp with
+  | .int _ =>
+    (match t.toInt? with
+     | some n => if -(2 ^ 63 : Int) ≤ n && n < (2 ^ 63 : Int) then some (.int n) else none
+     | none => none)
+  | .flt _ =>
+    (match parseHex64 t with
+     | some b => if Cello.Text.fFinite b then some (.flt b) else none
+     | none => none)
+  | .str _ =>
+    (match parseHex t with
+     | some bs =>
+       let ns := Cello.FileText.toNats bs
+       if ns.length > maxStrVal || ns.any (· = 0) then none else some (.str ns)
+     | none => none)
+
+def summarize (cs : List Call) : String :=
+  match cs with
+  | [] => "-"
+  | c :: _ => s!"{c.show}*{cs.length}"
+
+def emitT (s : Sys) (o : Nat) (op : String) (exc : String) (extra : String) (calls : List Call) : IO Unit :=
+  IO.println s!"O {op} exc={exc} {extra} st={stText s o} calls={summarize calls} live={s.lib.streams.length}"
+
+def doTp (s : Sys) (o : Nat) (rest : List String) : IO Sys := do
+  match rest with
+  | [sps, vs, seps] =>
+    match Cello.FileText.parseSpec sps, parseSep seps with
+    | some sp, some sep =>
+      match parseTVal sp vs with
+      | none => IO.println "O bad-op"; return s
+      | some v =>
+        if writeAfterRead s o || onFull s o || tooFar s o then IO.println "O tp unsup"; return s
+        match Cello.FileText.printFrags sp v sep with
+        | none => IO.println "O bad-op"; return s
+        | some frags =>
+          match s.exec o (.op (.print (frags.map Cello.FileText.toBytes))) with
+          | none => IO.println "O bad-op"; return s
+          | some (s', r) =>
+            let ret := match r.out with | .ok (.int n) => toString n | _ => "-1"
+            emitT s' o "tp" (excText r.out) s!"ret={ret}" r.calls
+            return s'
+    | _, _ => IO.println "O bad-op"; return s
+  | _ => IO.println "O bad-op"; return s
+
+def doTs (s : Sys) (o : Nat) (rest : List String) : IO Sys := do
+  match rest with
+  | [sps, seps] =>
+    match Cello.FileText.parseSpec sps, parseSep seps with
+    | some sp, some sep =>
+      let unsup : Bool := match s.stream o with
+        | some st => st.last = .wr || st.file = fileFull
+        | none => false
+      if unsup then IO.println "O ts unsup"; return s
+      let f : Option Handle := match s.obj o with | some f => f | none => none
+      match Cello.FileText.fileScanText Cello.FileText.src s.lib f sp sep with
+      | none => IO.println "O ts unsup"; return s
+      | some r =>
+        let val := match r.out with
+          | .ok (v, _) => v
+          | _ => Cello.FileText.valueAfter Cello.FileText.src s.lib f sp sep
+        let ret := match r.out with | .ok (_, n) => toString n | _ => "-1"
+        let r' : R Ref Val := ⟨r.lib, r.f, r.out.map (fun _ => Val.unit), r.calls⟩
+        let s' := { s with m := s.m.apply o r' true }
+        emitT s' o "ts" (excText r.out) s!"val={val.render} ret={ret}" r.calls
+        return { s' with nontrivial := s'.nontrivial + (match r.out with | .ok _ => 1 | _ => 0) }
+    | _, _ => IO.println "O bad-op"; return s
+  | _ => IO.println "O bad-op"; return s
 
 partial def runRange (lines : Array String) (lo hi : Nat) (s : Sys) : IO Sys := do
   let mut i := lo
@@ -402,6 +493,8 @@ where
           if writeAfterRead s o || onFull s o || tooFar s o then IO.println "O print unsup"; return (s, i + 1)
           return (← simple s o "print" (.op (.print (printIntFrags v))) (some (fun x => match x with | .int n => toString n | _ => "?")), i + 1)
       | _ => bad
+    else if op = "tp" then return (← doTp s o rest, i + 1)
+    else if op = "ts" then return (← doTs s o rest, i + 1)
     else if op = "scan" then
       if nargs ≠ 0 then return ← bad
       let unsup : Bool := match s.stream o with
